@@ -146,6 +146,14 @@ func vFault(format string, a ...interface{}) {
 	panic(vHarnessFault{fmt.Sprintf(format, a...)})
 }
 
+// vViolationPanic carries a property failure out of a nested helper (for instance "a command failed on valid generated
+// input" seen inside a run closure); vCheckOne turns it into an ordinary failure of the case.
+type vViolationPanic struct{ msg string }
+
+func vViolate(format string, a ...interface{}) {
+	panic(vViolationPanic{fmt.Sprintf(format, a...)})
+}
+
 type vFailFile struct {
 	Property  string          `json:"property"`
 	Kind      string          `json:"kind"`
@@ -325,6 +333,10 @@ func vCheckOne[C any](property, kind string, c C, ts *vTestStats, frozen bool, c
 	func() {
 		defer func() {
 			if r := recover(); r != nil {
+				if vp, ok := r.(vViolationPanic); ok {
+					f = &vFailure{Msg: vp.msg}
+					return
+				}
 				if hf, ok := r.(vHarnessFault); ok {
 					vAll.mu.Lock()
 					vAll.Faults = append(vAll.Faults, kind+": "+hf.msg)
@@ -446,6 +458,10 @@ func TestVerifReplay(t *testing.T) {
 	func() {
 		defer func() {
 			if r := recover(); r != nil {
+				if vp, ok := r.(vViolationPanic); ok {
+					f = &vFailure{Msg: vp.msg}
+					return
+				}
 				if hf, ok := r.(vHarnessFault); ok {
 					t.Fatalf("HARNESS-FAULT %s", hf.msg)
 				}
